@@ -173,6 +173,19 @@ CLAIMED = {
         "technique": "Lean 4 proof (fold invariants of the CID reader) + generated/decorated/defect-injected CID correspondence",
         "design_ref": "DESIGN.md §6 C09",
     },
+    "C10": {
+        "text": "Fault enumeration tied to the Lean model, with a partial proof. Every cell of every row kind of four base CIDs (all formats, all 8 field types, both "
+                "checks, all properties) is replaced in turn by each of ~80 hostile values; every data cell likewise; text containers with undecodable bytes, "
+                "unterminated quotes, NUL bytes; the command line on the hostile CIDs. The class of whatever escapes must be InterfaceError/DataError, and it is "
+                "compared with the exception class the Lean model of Cid.read predicts (every assert/int()/chr()/Decimal()/tokenizer failure is a branch of the "
+                "model). Lean theorems (Props/C10.lean) prove totality for the parts with small error sets (field names, integer properties, row dispatch, "
+                "ordering errors) and that the command line never exits 4 on modelled outcomes.",
+        "note": "Partial: a theorem that *every* path of Cid.read only yields cutplace errors is not proved; the claim for ranges, field declarations and checks "
+                "rests on the enumeration + model tie. Exception sources outside the model (MemoryError, library bugs) can only be met by the enumeration. "
+                "ODS/XLSX container corruption is covered under C15/C16. One open finding (absurdly large Integer length -> OverflowError).",
+        "technique": "exhaustive hostile-value enumeration with Lean-model exception-class prediction + partial Lean 4 totality proofs",
+        "design_ref": "DESIGN.md §6 C10",
+    },
 }
 
 NOT_YET = {
